@@ -71,10 +71,15 @@ PRELUDE = (' '.join('assign {} {}'.format(k, lit(v)) for k, v in VARS.items())
            + ' define sq with x begin return { x * x } end'
            + ' define avg with p q begin return { ( p + q ) / 2 } end'
            + ' define idf with v begin return v end'
+           # a function that leaves through `return` from inside two loops,
+           # the outer one over the lights, with lights still to come
+           + ' define pick with x begin repeat all as zl begin repeat 2 begin '
+             'return { x + 1 } end end return 0 end'
            # parameters deliberately named like the caller's variables
            + ' define second with a b begin return b end'
            + ' define third with n c d begin return d end ')
-USER = {'sq': lambda x: x * x, 'avg': lambda p, q: (p + q) / 2}
+USER = {'sq': lambda x: x * x, 'avg': lambda p, q: (p + q) / 2,
+        'pick': lambda x: x + 1}
 
 
 class Bad(Exception):
@@ -196,7 +201,8 @@ def gen_num(rng, depth):
             return ['num', -rng.choice([1, 2, 3, 0.5])]
         return ['neg', ['var', rng.choice(list(VARS))]]
     if r < 0.33 and depth >= 1:
-        f = rng.choice(['sq', 'avg', 'floor', 'ceil', 'trunc', 'sqrt', 'cycle'])
+        f = rng.choice(['sq', 'avg', 'floor', 'ceil', 'trunc', 'sqrt', 'cycle',
+                        'pick', 'pick'])
         n = 2 if f == 'avg' else 1
         return ['call', f, [gen_num(rng, depth - 2) for _ in range(n)]]
     if r < 0.38:
@@ -530,9 +536,50 @@ def part_random(ctx):
     ctx.sample({'part': 'random', 'range': [1, 6], 'draws': draws})
 
 
+DEEP = [
+    # recursion with an operand pending at every level
+    ('define total with n begin if { n <= 0 } return 0 '
+     'return { n + [ total { n - 1 } ] } end print [ total 600 ] '
+     'print { 1 + [ total 300 ] * 2 }', [180300, 90301]),
+    # the call first, the operand after it
+    ('define total with n begin if { n <= 0 } return 0 '
+     'return { [ total { n - 1 } ] + n } end print [ total 700 ]', [245350]),
+    # 600 operators grouping right to left, nothing reducible until the end
+    ('print { ' + ' ^ '.join(['1'] * 600) + ' ^ 2 }', [1]),
+    ('print { 2 ^ ' + ' ^ '.join(['1'] * 300) + ' }', [2]),
+    # long chains grouping left to right
+    ('print { ' + ' + '.join(['1'] * 2000) + ' }', [2000]),
+    ('print { 1000 ' + ' - 1' * 900 + ' }', [100]),
+    ('print { ' + ' * '.join(['1'] * 500) + ' * 7 }', [7]),
+    # right operands that are themselves pending: a + ( a + ( a + ... ) )
+    ('print { ' + '1 + ( ' * 120 + '1' + ' )' * 120 + ' }', [121]),
+    ('print { ' + ' or '.join(['0'] * 400) + ' or 3 }', [True]),
+    ('print { ' + ' and '.join(['1'] * 400) + ' and 0 }', [False]),
+]
+
+
+def part_deep(ctx):
+    """trees "of any depth": hundreds of pending operands"""
+    for text, want in DEEP:
+        r = run_script(text)
+        ctx.case('D:' + text[:80] + str(len(text)))
+        replay = {'part': 'deep', 'script': text}
+        got = outputs(r)
+        if not r.accepted or r.stops or got != want:
+            ctx.violation('expr:deep', 'printed {} expected {} {} {} | {}...'
+                          .format(got, want, r.errors.strip()[:80],
+                                  r.stops[:1], text[:120]), replay)
+        else:
+            ctx.count('deep_expressions_ok')
+
+
 def run_shard(ctx):
-    env.configure(simnet.make_devices([dict(label='A', group='G',
-                                            location='P')]))
+    env.configure(simnet.make_devices([
+        dict(label='A', group='G', location='P'),
+        dict(label='B', group='G', location='P'),
+        dict(label='C', group='G', location='P')]))
+    if ctx.shard == 0:
+        part_deep(ctx)
     part_expr(ctx)
     part_builtins(ctx)
     part_random(ctx)
